@@ -455,8 +455,9 @@ def featF8 : Feat :=
   { nillable := true, tokens := true, wrapper := true, sequence := true, fixed := true, anyAttrs := true,
     inherit := true, wildcard := true }
 
-/-- **C01, fragment F8** = F7 + one list wildcard per class without text var (`List[object]` with
-`metadata={"type": "Wildcard"}`, any `namespace` and `process_contents`), whose items are generic
+/-- **C01, fragment F8** = F7 + one wildcard per class without text var (`List[object]`, or
+`Optional[object]` holding one generic element or `None`, with `metadata={"type": "Wildcard"}`, any
+`namespace` and `process_contents`), whose items are generic
 elements (`AnyElement`) in the form the parser builds (`canonAny`: a name, text `""` rather than
 `None`, no tail, attributes with distinct keys, children of the same form).  The name of an item must be
 one that `ElementNode.child` hands to the wildcard: not a declared element or wrapper of the class, in
@@ -553,5 +554,33 @@ example : ∃ evs t, generate e0 Γw8 {} v3t = .ok evs ∧ eventsTree (isDatatyp
 example : ∃ evs t, generate e0 Γ2 {} v2 = .ok evs ∧ eventsTree (isDatatype Γ2) evs = .ok t ∧
     parseRoot e0 Γ2 {} (s "Root") t = .ok (v2, 0) :=
   bind_generate_partial e0 Γ2 {} {} (s "Root") v2 (Or.inl ⟨by decide, by decide⟩)
+
+/-! #### a single (non-list) wildcard -/
+
+def gW1 : XmlVar :=
+  { mkVarN 2 "w" "w" .wildcard [.obj] with namespaces := [s "##any"] }
+/-- `Root`: `a: Optional[str]`, `w: Optional[object]` (wildcard), `z: List[int]` -/
+def gRoot1 : ClassInfo := classOf "Root"
+  { mkMeta "Root" "Root" none [gA, gZ] [] with wildcards := [gW1] }
+  [⟨s "a", true, some .none⟩, ⟨s "w", true, some .none⟩, ⟨s "z", true, some (.list [])⟩]
+def Γ8o : Ctx := twoClasses w5Leaf gRoot1
+
+def v8o : Val := .obj (s "Root")
+  [(s "a", .prim (.str (s "x"))),
+   (s "w", anyEl "g" "" [("k", "1")] [anyEl "{urn:g}h" "u" [] [], anyEl "i" "" [] []]),
+   (s "z", .list [.prim (.int 1)])]
+def v8n : Val := .obj (s "Root") [(s "a", .none), (s "w", .none), (s "z", .list [])]
+
+example : ctxOK featF8 Γ8o = true ∧ valOKI true e0 Γ8o (s "Root") v8o = true ∧
+    valOKI true e0 Γ8o (s "Root") v8n = true := by decide
+example : ∃ evs t, generate e0 Γ8o {} v8o = .ok evs ∧ eventsTree (isDatatype Γ8o) evs = .ok t ∧
+    parseRoot e0 Γ8o {} (s "Root") t = .ok (v8o, 0) :=
+  bind_generate_F8 e0 Γ8o {} {} (s "Root") v8o (by decide) (by decide)
+example : ∃ evs t, generate e0 Γ8o {} v8n = .ok evs ∧ eventsTree (isDatatype Γ8o) evs = .ok t ∧
+    parseRoot e0 Γ8o {} (s "Root") t = .ok (v8n, 0) :=
+  bind_generate_F8 e0 Γ8o {} {} (s "Root") v8n (by decide) (by decide)
+/-- a list in a single wildcard is outside the fragment -/
+example : valOKI true e0 Γ8o (s "Root") (.obj (s "Root") [(s "a", .none), (s "w", .list []), (s "z", .list [])]) = false := by
+  decide
 
 end Props.C01
